@@ -297,9 +297,11 @@ def run(shard, ctx):
                     v = rng.choice(pool)
                     hist.append(("place (malformed content)", v.label, repr(badc)))
                     st, rr = ctx.call(bar.place_notes, badc, v.value)
-                    ctx.check("accept: a placement refused by an error changes nothing", st == "exc" and snapshot(bar) == before,
-                              {"meter": meter, "history": hist}, before if st == "exc" else "an exception", snapshot(bar) if st == "exc" else repr(rr),
-                              mechanism="raised-placement-changed")
+                    # (refused = an exception, or False when the bar is found full before the content is looked at)
+                    refused = st == "exc" or (st == "ok" and rr is False)
+                    ctx.check("accept: a placement refused by an error changes nothing", refused and snapshot(bar) == before,
+                              {"meter": meter, "history": hist}, before if refused else "an exception or False",
+                              snapshot(bar) if refused else repr(rr), mechanism="raised-placement-changed")
                 elif r < 0.72 and meter != (0, 0):
                     # the meter is set again on the bar as it stands (same, longer or shorter)
                     newm = rng.choice([meter, (meter[0] + 1, meter[1]), (max(1, meter[0] - 1), meter[1]), (meter[0] * 2, meter[1] * 2), (2, 4), (6, 8)])
